@@ -372,6 +372,28 @@ Definition validate_ephemeral_sc (s : lstate) (m : mid) (p : pres sce) : R unit 
     end
   end.
 
+(* the three accumulation loops of validateV2Siacoins *)
+Fixpoint out_sco (l : list (id * sco)) (acc : Z) : R Z :=
+  match l with [] => Ok acc | (_, o) :: r => if sco_value o =? 0 then err 84 else do a <- cadd acc (sco_value o); out_sco r a end.
+Fixpoint out_fc (l : list (id * fc2)) (acc : Z) : R Z :=
+  match l with
+  | [] => Ok acc
+  | (_, fc) :: r => do a <- cadd acc (sco_value (c_renter fc)); do b <- cadd a (sco_value (c_host fc)); do tx <- v2_tax fc; do c <- cadd b tx; out_fc r c
+  end.
+Fixpoint io_res (l : list res2) (io : Z * Z) : R (Z * Z) :=
+  match l with
+  | [] => Ok io
+  | rs :: r =>
+    match rs_res rs with
+    | RRenewal rn =>
+      do i1 <- cadd (fst io) (rn_renter_rollover rn); do i2 <- cadd i1 (rn_host_rollover rn);
+      let fc := rn_new rn in
+      do a <- cadd (snd io) (sco_value (c_renter fc)); do b <- cadd a (sco_value (c_host fc)); do tx <- v2_tax fc; do c <- cadd b tx;
+      io_res r (i2, c)
+    | _ => io_res r io
+    end
+  end.
+
 Definition validate_v2_siacoins (s : lstate) (m : mid) (t : txn2) : R unit :=
   do _ <-
     (fix go (l : list sci2) (seen : list id) : R unit :=
@@ -390,26 +412,9 @@ Definition validate_v2_siacoins (s : lstate) (m : mid) (t : txn2) : R unit :=
            go r (pid :: seen)
        end) (t2_sci t) [];
   do insum <- csum (map (fun i => sco_value (sce_out (p_val (i2_parent i)))) (t2_sci t)) 0;
-  do outsum <- (fix go (l : list (id * sco)) (acc : Z) : R Z :=
-                  match l with [] => Ok acc | (_, o) :: r => if sco_value o =? 0 then err 84 else do a <- cadd acc (sco_value o); go r a end) (t2_sco t) 0;
-  do outsum <- (fix go (l : list (id * fc2)) (acc : Z) : R Z :=
-                  match l with
-                  | [] => Ok acc
-                  | (_, fc) :: r => do a <- cadd acc (sco_value (c_renter fc)); do b <- cadd a (sco_value (c_host fc)); do tx <- v2_tax fc; do c <- cadd b tx; go r c
-                  end) (t2_fc t) outsum;
-  do io <- (fix go (l : list res2) (io : Z * Z) : R (Z * Z) :=
-              match l with
-              | [] => Ok io
-              | rs :: r =>
-                match rs_res rs with
-                | RRenewal rn =>
-                  do i1 <- cadd (fst io) (rn_renter_rollover rn); do i2 <- cadd i1 (rn_host_rollover rn);
-                  let fc := rn_new rn in
-                  do a <- cadd (snd io) (sco_value (c_renter fc)); do b <- cadd a (sco_value (c_host fc)); do tx <- v2_tax fc; do c <- cadd b tx;
-                  go r (i2, c)
-                | _ => go r io
-                end
-              end) (t2_res t) (insum, outsum);
+  do outsum <- out_sco (t2_sco t) 0;
+  do outsum <- out_fc (t2_fc t) outsum;
+  do io <- io_res (t2_res t) (insum, outsum);
   do o <- cadd (snd io) (t2_fee t);
   if fst io =? o then Ok tt else err 85.
 
@@ -511,44 +516,48 @@ Definition validate_renewal (s : lstate) (fc : fc2) (rn : renewal) : R unit :=
         else if negb (vlookup vt (c_host_key fc) (rn_sighash rn) (rn_host_sig rn)) then err 135
         else Ok tt.
 
+Definition validate_parent2 (s : lstate) (m : mid) (p : pres fce2) (revised resolved : list id) : R unit :=
+  let i := v2_id (p_val p) in
+  if is_spent m i then err 110
+  else if existsb (beq i) revised then err 111
+  else if existsb (beq i) resolved then err 112
+  else let '(u, sp) := mem_v2 s p in if u then Ok tt else if sp then err 113 else err 114.
+(* one resolution against the contract as presented *)
+Definition validate_resolution (s : lstate) (rs : res2) : R unit :=
+  let fc := v2_fc (p_val (rs_parent rs)) in
+  match rs_res rs with
+  | RRenewal rn => validate_renewal s fc rn
+  | RProof sp =>
+    if child s <? c_proof_height fc then err 136
+    else if negb (snd (p_val (sp2_index sp)) =? c_proof_height fc) then err 137
+    else if negb (fst (mem_ci s (sp2_index sp))) then err 138
+    else
+      let li := sp_leaf_index (c_filesize fc) (fst (p_val (sp2_index sp))) (v2_id (p_val (rs_parent rs))) in
+      if beq (sp_root_v2 (H (0%N :: pad64 (sp2_leaf sp))) li (c_filesize fc) (sp2_proof sp)) (c_root fc) then Ok tt else err 139
+  | RExpiration => if child s <=? c_exp_height fc then err 140 else Ok tt
+  end.
+Fixpoint check_resolutions (s : lstate) (m : mid) (revised : list id) (l : list res2) (resolved : list id) : R unit :=
+  match l with
+  | [] => Ok tt
+  | rs :: r =>
+    do _ <- validate_parent2 s m (rs_parent rs) revised resolved;
+    do _ <- validate_resolution s rs;
+    check_resolutions s m revised r (v2_id (p_val (rs_parent rs)) :: resolved)
+  end.
+
 Definition validate_v2_contracts (s : lstate) (m : mid) (t : txn2) : R unit :=
-  let validate_parent (p : pres fce2) (revised resolved : list id) : R unit :=
-    let i := v2_id (p_val p) in
-    if is_spent m i then err 110
-    else if existsb (beq i) revised then err 111
-    else if existsb (beq i) resolved then err 112
-    else let '(u, sp) := mem_v2 s p in if u then Ok tt else if sp then err 113 else err 114 in
   do _ <- (fix go (l : list (id * fc2)) : R unit := match l with [] => Ok tt | (_, fc) :: r => do _ <- validate_contract s fc; go r end) (t2_fc t);
   do revised <-
     (fix go (l : list rev2) (revised : list id) : R (list id) :=
        match l with
        | [] => Ok revised
        | rv :: r =>
-         do _ <- validate_parent (r2_parent rv) revised [];
+         do _ <- validate_parent2 s m (r2_parent rv) revised [];
          if c_proof_height (v2_fc (p_val (r2_parent rv))) <? child s then err 115
          else do _ <- validate_revision s m (p_val (r2_parent rv)) (r2_rev rv);
            go r (v2_id (p_val (r2_parent rv)) :: revised)
        end) (t2_rev t) [];
-  (fix go (l : list res2) (resolved : list id) : R unit :=
-     match l with
-     | [] => Ok tt
-     | rs :: r =>
-       do _ <- validate_parent (rs_parent rs) revised resolved;
-       let fc := v2_fc (p_val (rs_parent rs)) in
-       do _ <-
-         match rs_res rs with
-         | RRenewal rn => validate_renewal s fc rn
-         | RProof sp =>
-           if child s <? c_proof_height fc then err 136
-           else if negb (snd (p_val (sp2_index sp)) =? c_proof_height fc) then err 137
-           else if negb (fst (mem_ci s (sp2_index sp))) then err 138
-           else
-             let li := sp_leaf_index (c_filesize fc) (fst (p_val (sp2_index sp))) (v2_id (p_val (rs_parent rs))) in
-             if beq (sp_root_v2 (H (0%N :: pad64 (sp2_leaf sp))) li (c_filesize fc) (sp2_proof sp)) (c_root fc) then Ok tt else err 139
-         | RExpiration => if child s <=? c_exp_height fc then err 140 else Ok tt
-         end;
-       go r (v2_id (p_val (rs_parent rs)) :: resolved)
-     end) (t2_res t) [].
+  check_resolutions s m revised (t2_res t) [].
 
 Definition validate_attestations (t : txn2) : R unit :=
   (fix go (l : list att) : R unit :=
